@@ -198,8 +198,8 @@ def hexVal? (c : Char) : Option Nat :=
 /-- Is `n` a UTF-16 surrogate (not a `char`)? `char::try_from(n).unwrap()` panics exactly there for `n < 0x10000`. -/
 def isSurrogate (n : Nat) : Bool := 0xD800 ≤ n && n ≤ 0xDFFF
 
-/-- `tokens.rs::unescape` from a given automaton state.  `err` = the `Failed` state was entered (invalid escape);
-`panic` = a `\uXXXX` escape denoting a surrogate was reached first (finding F16).  An escape still open at the end
+/-- `tokens.rs::unescape` from a given automaton state.  `err` = the `Failed` state was entered (invalid escape,
+which includes a `\uXXXX` escape denoting a surrogate — it used to panic, finding F16, fixed).  An escape still open at the end
 of the literal is silently dropped, as in the code. -/
 def unescFrom : EscSt → List Char → Res (List Char)
   | _, [] => .ok []
@@ -224,7 +224,7 @@ def unescFrom : EscSt → List Char → Res (List Char)
   | .u3 a b c', c :: r =>
     match hexVal? c with
     | some d =>
-      if isSurrogate (a * 4096 + b * 256 + c' * 16 + d) then .panic
+      if isSurrogate (a * 4096 + b * 256 + c' * 16 + d) then .err
       else (unescFrom .none r).map (Char.ofNat (a * 4096 + b * 256 + c' * 16 + d) :: ·)
     | none => .err
 
@@ -548,8 +548,8 @@ def printA (st : Style) (i : Nat) : Value → List Char
     else
       '(' :: (printAttrs st i attrs ++
       (if items.length = 0 then []
-       -- one item: a space, then the item *without* braces even when it is a slot
-       else if items.isSoleVal || items.isSoleSlot then ' ' :: printItems st i i true false items
+       -- one value item: a space, then the item (a sole slot takes the braces, as in `printV`; C09-N2 fixed)
+       else if items.isSoleVal then ' ' :: printItems st i i true false items
        else pad st ++ '{' :: (startBlock st i items.length ++ printItems st (inner st i items.length) i true true items
           ++ endBlock st i ++ ['}'])) ++ [')'])
 end
@@ -607,11 +607,12 @@ def lexPrim (inp : List Char) : Option (Res (Value × List Char)) :=
     else none
 
 /-- Does the input start with something that ends a body-less record in the `AfterAttr` state:
-a separator, a closing delimiter, a line ending — or the end of the document? -/
+a separator, a closing delimiter, a colon (the record is then a slot key; C09-N3 fixed), a line ending — or the end
+of the document? -/
 def endsRecord (inp : List Char) : Bool :=
   match inp with
   | [] => true
-  | c :: _ => isSep c || c = ')' || c = '}' || (lineEnding? inp).isSome
+  | c :: _ => isSep c || c = ')' || c = '}' || c = ':' || (lineEnding? inp).isSome
 
 mutual
 /-- A value in item position: primitive, record starting with an attribute, or `{ … }`. -/
